@@ -27,4 +27,4 @@ cd $W && git reset -q --hard
 # regenerate the Gen/ files from the real tree again
 cd ${VERIF_ROOT:-/verif} && PYTHONPATH=/repo:${VERIF_ROOT:-/verif} /venv/bin/python -c "
 from harness import core; import pkgutil, translate
-core.run_translators([m.name for m in pkgutil.iter_modules(translate.__path__) if m.name not in ('pyexpr','normalize')])" >/dev/null 2>&1
+core.run_translators([m.name for m in pkgutil.iter_modules(translate.__path__) if m.name not in ('pyexpr','normalize','renames')])" >/dev/null 2>&1
